@@ -33,7 +33,8 @@ struct Rng {
 enum Kind : int {
   K_MOVRR, K_MOVRI, K_ALU, K_ALUI, K_IMUL, K_SHIFTCL, K_SHIFTI, K_UNARY, K_MUL, K_DIV, K_CMP, K_TEST, K_CMPI, K_CMOV, K_SETCC,
   K_LEA, K_MOVZX, K_MOVSX, K_LOAD, K_LOADX, K_STORE, K_JCC, K_JMP, K_LABEL, K_RET, K_CALL,
-  K_VLOAD, K_VSTORE, K_VBIN, K_VMOV, K_VFROMGP, K_VTOGP, K_VSHUF, K_VPINSRW, K_VSHIFTI
+  K_VLOAD, K_VSTORE, K_VBIN, K_VMOV, K_VFROMGP, K_VTOGP, K_VSHUF, K_VPINSRW, K_VSHIFTI, K_SWITCH,
+  K_YLOAD, K_YSTORE, K_YBIN, K_YMOV, K_KLOAD, K_KSTORE, K_KBIN, K_KMOV, K_KFROMGP, K_KTOGP
 };
 enum VOp { V_PADDD, V_PSUBD, V_PXOR, V_PAND, V_POR, V_PADDQ, V_PMULUDQ, V_PADDB, V_PCMPEQD };
 enum AluOp { A_ADD, A_SUB, A_AND, A_OR, A_XOR };
@@ -50,6 +51,7 @@ struct Prog {
   std::vector<int> vsize;     // size in bytes of each virtual register; vreg 0 = pointer argument
   std::vector<Ins> ins;
   int nlabels = 0;
+  int jt_mode = -1;
   std::vector<int> argv;      // 8-byte virtual registers that receive the function arguments 1..k (6th and later on the stack)
 };
 
@@ -60,15 +62,18 @@ static const int kBufBytes = kOutBase + kOutQwords * 8;
 
 // generator features that are switched off while the corresponding recorded defect of the tree is present (decided by the
 // probes, see tools/checks/c05.py): bit 0 = 32-bit writes to 8-byte virtual registers (zero-extension) and
-// bit 1 = 8/16-bit xor/sub same-register idioms on wider virtual registers, bit 2 = `and r, 0`, bit 3 = calls, bit 4 = 16-byte vector registers, bit 5 = further function arguments (register and stack)
-static unsigned g_features = 63;
+// bit 1 = 8/16-bit xor/sub same-register idioms on wider virtual registers, bit 2 = `and r, 0`, bit 3 = calls, bit 4 = 16-byte vector registers, bit 5 = further function arguments (register and stack), bit 6 = annotated jump tables, bit 7 = AVX functions (32-byte vectors, mask registers, re-aligned stack)
+static unsigned g_features = 255;
+static int g_jt_mode = -1;
 
 struct Gen {
   Rng& r; Prog& p;
   std::vector<int> vals;      // value vregs (general purpose)
   std::vector<int> vvals;     // 16-byte vector vregs
+  std::vector<int> yvals, kvals;   // 32-byte vector vregs and 64-bit mask vregs (AVX functions; vsize 32 resp. -8)
   std::vector<int> counters;  // loop counters (never written by ordinary instructions)
   int idxTmp = -1;            // 64-bit temporary used for computed indices
+  int jtIdx = -1, jtOff = -1, jtTgt = -1;   // temporaries of jump-table dispatch (never observed otherwise)
   Gen(Rng& r_, Prog& p_) : r(r_), p(p_) {}
 
   int newv(int size) { p.vsize.push_back(size); return int(p.vsize.size()) - 1; }
@@ -124,6 +129,8 @@ struct Gen {
     Ins i;
     uint32_t pick = r.below((g_features & 8) ? 26 : 24);
     if ((g_features & 16) && !vvals.empty() && r.chance(30)) pick = 100 + r.below(10);
+    if (!yvals.empty() && r.chance(30)) pick = 200 + r.below(5);
+    if (!kvals.empty() && r.chance(12)) pick = 210 + r.below(6);
     switch (pick) {
       case 0: case 1: { int d = anyv(), a = anyv(); int w = pickw(std::min(p.vsize[d], p.vsize[a])); i.k = K_MOVRR; i.d = d; i.a = a; i.w = w; add(i); break; }
       case 2: { int d = anyv(); int w = pickw(p.vsize[d]); i.k = K_MOVRI; i.d = d; i.w = w; i.imm = (w == 8 && r.chance(30)) ? int64_t(r.next()) : fitimm(pickimm(w), w); add(i); break; }
@@ -158,6 +165,14 @@ struct Gen {
         Ins m; m.k = K_MOVRR; m.d = idxTmp; m.a = x; m.w = 4; add(m);
         Ins n; n.k = K_ALUI; n.op = A_AND; n.d = idxTmp; n.w = 4; n.imm = 0xF8; add(n);
         i.k = K_LOADX; i.d = d; i.a = idxTmp; i.w = w; i.imm = int64_t(r.below(4)) * 64; add(i); break; }
+      case 200: { i.k = K_YLOAD; i.d = yvals[r.below(uint32_t(yvals.size()))]; i.imm = int64_t(r.below(kBufQwords - 4)) * 8; add(i); break; }
+      case 201: case 202: case 203: { i.k = K_YBIN; i.op = int(r.below(4)); i.d = yvals[r.below(uint32_t(yvals.size()))]; i.a = yvals[r.below(uint32_t(yvals.size()))]; i.b = r.chance(10) ? i.a : yvals[r.below(uint32_t(yvals.size()))]; add(i); break; }
+      case 204: { i.k = K_YMOV; i.d = yvals[r.below(uint32_t(yvals.size()))]; i.a = yvals[r.below(uint32_t(yvals.size()))]; add(i); break; }
+      case 210: { i.k = K_KLOAD; i.d = kvals[r.below(uint32_t(kvals.size()))]; i.imm = int64_t(r.below(kBufQwords)) * 8; add(i); break; }
+      case 211: case 212: { i.k = K_KBIN; i.op = int(r.below(3)); i.d = kvals[r.below(uint32_t(kvals.size()))]; i.a = kvals[r.below(uint32_t(kvals.size()))]; i.b = kvals[r.below(uint32_t(kvals.size()))]; add(i); break; }
+      case 213: { i.k = K_KMOV; i.d = kvals[r.below(uint32_t(kvals.size()))]; i.a = kvals[r.below(uint32_t(kvals.size()))]; add(i); break; }
+      case 214: { int g = vmin(8); if (g < 0) break; i.k = K_KFROMGP; i.d = kvals[r.below(uint32_t(kvals.size()))]; i.a = g; add(i); break; }
+      case 215: { int g = vmin(8); if (g < 0) break; i.k = K_KTOGP; i.d = g; i.a = kvals[r.below(uint32_t(kvals.size()))]; i.w = 8; add(i); break; }
       case 100: { i.k = K_VLOAD; i.d = anyvv(); i.imm = int64_t(r.below(kBufQwords - 1)) * 8; add(i); break; }
       case 101: case 102: case 103: { i.k = K_VBIN; i.op = int(r.below(9)); i.d = anyvv(); i.a = r.chance(12) ? i.d : anyvv(); add(i); break; }
       case 104: { i.k = K_VMOV; i.d = anyvv(); i.a = anyvv(); add(i); break; }
@@ -179,29 +194,56 @@ struct Gen {
     int nloops = int(r.below(4));
     for (int j = 0; j < nloops; j++) counters.push_back(newv(8));
     idxTmp = newv(8);
+    if (g_features & 64) { jtIdx = newv(8); jtOff = newv(8); jtTgt = newv(8); }
     static const int sizes[8] = {8, 8, 8, 4, 4, 2, 1, 8};
     for (int j = 0; j < nvals; j++) vals.push_back(newv(sizes[r.below(8)]));
     if (vals.empty()) vals.push_back(newv(8));
-    if (g_features & 16) for (int j = 0; j < nvec; j++) vvals.push_back(newv(16));
-    if ((g_features & 32) && r.chance(50)) { int k = int(r.below(12)); for (int j = 0; j < k; j++) { int v = vmin(8); if (v >= 0 && std::find(p.argv.begin(), p.argv.end(), v) == p.argv.end()) p.argv.push_back(v); } }
+    bool avx = (g_features & 128) && nvec > 0 && r.chance(40);      // an AVX function: its vectors are 32 bytes wide, mask registers appear
+    if (avx) { for (int j = 0; j < nvec; j++) yvals.push_back(newv(32)); int nk = int(r.below(10)); for (int j = 0; j < nk; j++) kvals.push_back(newv(-8)); }
+    else if (g_features & 16) for (int j = 0; j < nvec; j++) vvals.push_back(newv(16));
+    if ((g_features & 32) && r.chance(50)) { int k = int(r.below(yvals.empty() ? 12 : 6)); /* no stack arguments in frames with a re-aligned stack */ for (int j = 0; j < k; j++) { int v = vmin(8); if (v >= 0 && std::find(p.argv.begin(), p.argv.end(), v) == p.argv.end()) p.argv.push_back(v); } }
     // entry: every register is defined on every path
     for (int c : counters) { Ins i; i.k = K_MOVRI; i.d = c; i.w = 8; i.imm = 1 + int64_t(r.below(3)); add(i); }
     { Ins i; i.k = K_MOVRI; i.d = idxTmp; i.w = 8; i.imm = 0; add(i); }
+    if (jtIdx >= 0) for (int t : {jtIdx, jtOff, jtTgt}) { Ins i; i.k = K_MOVRI; i.d = t; i.w = 8; i.imm = 0; add(i); }
     for (int v : vals) { if (std::find(p.argv.begin(), p.argv.end(), v) != p.argv.end()) continue; Ins i; if (r.chance(85)) { i.k = K_LOAD; i.d = v; i.w = p.vsize[v]; i.imm = int64_t(r.below(kBufQwords)) * 8; } else { i.k = K_MOVRI; i.d = v; i.w = p.vsize[v]; i.imm = fitimm(pickimm(p.vsize[v]), p.vsize[v]); } add(i); }
     for (int v : vvals) { Ins i; i.k = K_VLOAD; i.d = v; i.imm = int64_t(r.below(kBufQwords - 1)) * 8; add(i); }
+    for (int v : yvals) { Ins i; i.k = K_YLOAD; i.d = v; i.imm = int64_t(r.below(kBufQwords - 4)) * 8; add(i); }
+    for (int v : kvals) { Ins i; i.k = K_KLOAD; i.d = v; i.imm = int64_t(r.below(kBufQwords)) * 8; add(i); }
     // body: labels are created on demand; forward jumps pick a label that will be placed later
     std::vector<int> placed;        // labels already bound (targets of backward jumps)
     std::vector<int> pending;       // labels referenced by forward jumps, not yet bound
     std::vector<int> freeCounters = counters;
+    std::vector<int> jtpend;        // jump-table targets that no other jump may use (C05_JT_SHARE=0)
+    // how jump-table targets relate to the rest of the flow: 0 entered through their table only, 2 also by falling through,
+    // 3/4 also by conditional/unconditional forward jumps, 5 two entries share a block, 6 also by loop back edges,
+    // 7 the entries of all tables are bound back to back at the end of the function (recorded defect, probe only)
+    static const int modes[5] = {0, 2, 3, 4, 6};     // 5 and 7 (a block named by several entries) are the recorded defect: probe only
+    int jt_mode = g_jt_mode >= 0 ? g_jt_mode : modes[r.below(5)]; p.jt_mode = jt_mode;
     for (int n = 0; n < nitems; n++) {
       uint32_t x = r.below(100);
       if (int(x) < flowpct) {
-        uint32_t y = r.below(10);
-        if (y < 4) {                                 // forward conditional jump
-          int l; if (!pending.empty() && r.chance(40)) l = pending[r.below(uint32_t(pending.size()))]; else { l = p.nlabels++; pending.push_back(l); }
+        uint32_t y = r.below(jtIdx >= 0 ? 12 : 10);
+        if (y >= 10) {                               // annotated jump table with 2 or 4 forward targets; the first one follows directly
+          int x = vmin(4); if (x < 0) continue; int n = r.chance(50) ? 2 : 4;
+          Ins m; m.k = K_MOVRR; m.d = jtIdx; m.a = x; m.w = 4; add(m);
+          Ins a; a.k = K_ALUI; a.op = A_AND; a.d = jtIdx; a.w = 4; a.imm = n - 1; add(a);
+          Ins sw; sw.k = K_SWITCH; sw.a = jtIdx; sw.d = jtOff; sw.b = jtTgt; sw.nargs = n;
+          sw.xs[0] = p.nlabels++;
+          int jt_share = jt_mode;
+          for (int q = 1; q < n; q++) { if (jt_share == 1 && !pending.empty() && r.chance(40)) sw.xs[q] = pending[r.below(uint32_t(pending.size()))]; else { sw.xs[q] = p.nlabels++; (jt_share == 1 ? pending : jtpend).push_back(sw.xs[q]); } }
+          add(sw);
+          Ins s; s.k = K_LABEL; s.lbl = sw.xs[0]; add(s); placed.push_back(sw.xs[0]);
+        } else if (y < 4) {                                 // forward conditional jump
+          int l; if (jt_mode == 3 && !jtpend.empty() && r.chance(40)) l = jtpend[r.below(uint32_t(jtpend.size()))]; else if (!pending.empty() && r.chance(40)) l = pending[r.below(uint32_t(pending.size()))]; else { l = p.nlabels++; pending.push_back(l); }
           cmp_any(); Ins i; i.k = K_JCC; i.cc = int(r.below(16)); i.lbl = l; add(i);
         } else if (y < 7) {                          // bind a label (pending one or a fresh one for back edges)
-          int l; if (!pending.empty() && r.chance(75)) { uint32_t q = r.below(uint32_t(pending.size())); l = pending[q]; pending.erase(pending.begin() + q); } else l = p.nlabels++;
+          if (!jtpend.empty() && r.chance(50)) {     // an exclusive jump-table target: entered through its table only
+            int lj = jtpend.back(); jtpend.pop_back();
+            if (jt_mode != 2 && jt_mode != 5) { int skip = p.nlabels++; pending.push_back(skip); Ins j; j.k = K_JMP; j.lbl = skip; add(j); }
+            Ins s; s.k = K_LABEL; s.lbl = lj; add(s); if (jt_mode == 6) placed.push_back(lj); if (jt_mode != 5) one_op(); else if (!jtpend.empty()) { Ins s2; s2.k = K_LABEL; s2.lbl = jtpend.back(); jtpend.pop_back(); add(s2); } continue;
+          }
+          int l; if (false) { l = 0; } else if (!pending.empty() && r.chance(75)) { uint32_t q = r.below(uint32_t(pending.size())); l = pending[q]; pending.erase(pending.begin() + q); } else l = p.nlabels++;
           Ins i; i.k = K_LABEL; i.lbl = l; add(i); placed.push_back(l);
         } else if (y < 9) {                          // guarded backward jump
           if (placed.empty() || freeCounters.empty()) continue;
@@ -216,17 +258,21 @@ struct Gen {
                                                      // label bound right behind it is already the target of an earlier forward branch
           if (pending.empty()) continue;
           uint32_t q = r.below(uint32_t(pending.size())); int l2 = pending[q]; pending.erase(pending.begin() + q);
-          int l; if (!pending.empty() && r.chance(40)) l = pending[r.below(uint32_t(pending.size()))]; else { l = p.nlabels++; pending.push_back(l); }
+          int l; if (jt_mode == 4 && !jtpend.empty() && r.chance(50)) l = jtpend[r.below(uint32_t(jtpend.size()))]; else if (!pending.empty() && r.chance(40)) l = pending[r.below(uint32_t(pending.size()))]; else { l = p.nlabels++; pending.push_back(l); }
           Ins i; i.k = K_JMP; i.lbl = l; add(i);
           Ins s; s.k = K_LABEL; s.lbl = l2; add(s); placed.push_back(l2);
         }
       } else one_op();
     }
+    if (jt_mode == 7) { for (int lj : jtpend) { Ins s; s.k = K_LABEL; s.lbl = lj; add(s); } jtpend.clear(); }
+    for (int lj : jtpend) { int skip = p.nlabels++; pending.push_back(skip); Ins j; j.k = K_JMP; j.lbl = skip; add(j); Ins s; s.k = K_LABEL; s.lbl = lj; add(s); one_op(); }
     for (int l : pending) { Ins i; i.k = K_LABEL; i.lbl = l; add(i); }
     // exit: all values become observable
     int slot = 0;
     for (int v : vals) { if (slot >= kOutQwords - 1) break; Ins i; i.k = K_STORE; i.a = v; i.w = p.vsize[v]; i.imm = kOutBase + 8 * slot++; add(i); }
     for (int v : vvals) { if (slot >= kOutQwords - 2) break; Ins i; i.k = K_VSTORE; i.a = v; i.imm = kOutBase + 8 * slot; slot += 2; add(i); }
+    for (int v : yvals) { if (slot >= kOutQwords - 4) break; Ins i; i.k = K_YSTORE; i.a = v; i.imm = kOutBase + 8 * slot; slot += 4; add(i); }
+    for (int v : kvals) { if (slot >= kOutQwords - 1) break; Ins i; i.k = K_KSTORE; i.a = v; i.imm = kOutBase + 8 * slot++; add(i); }
     int rv = vmin(8); if (rv < 0) { rv = idxTmp; }
     Ins i; i.k = K_RET; i.a = rv; add(i);
   }
@@ -255,9 +301,10 @@ static uint64_t helper8(uint64_t a0, uint64_t a1, uint64_t a2, uint64_t a3, uint
 }
 
 struct V128 { uint64_t q[2]; };
+struct V256 { uint64_t q[4]; };
 struct Interp {
-  const Prog& p; std::vector<uint64_t> R; std::vector<V128> X; Flags f; uint8_t* buf; bool fault = false;
-  Interp(const Prog& p_, uint8_t* b) : p(p_), R(p_.vsize.size(), 0), X(p_.vsize.size(), V128{{0, 0}}), buf(b) {}
+  const Prog& p; std::vector<uint64_t> R; std::vector<V128> X; std::vector<V256> Y; Flags f; uint8_t* buf; bool fault = false;
+  Interp(const Prog& p_, uint8_t* b) : p(p_), R(p_.vsize.size(), 0), X(p_.vsize.size(), V128{{0, 0}}), Y(p_.vsize.size(), V256{{0, 0, 0, 0}}), buf(b) {}
   uint64_t rd(int v, int w) const { return R[size_t(v)] & maskw(w); }
   void wr(int v, int w, uint64_t x) { if (w >= 4) R[size_t(v)] = x & maskw(w); else R[size_t(v)] = (R[size_t(v)] & ~maskw(w)) | (x & maskw(w)); }
   uint64_t ld(int64_t off, int w) { if (off < 0 || off + w > kBufBytes) { fault = true; return 0; } uint64_t x = 0; memcpy(&x, buf + off, size_t(w)); return x; }
@@ -309,6 +356,22 @@ struct Interp {
         case K_JCC: if (cond(i.cc, f)) pc = lab[i.lbl]; break;
         case K_JMP: pc = lab[i.lbl]; break;
         case K_LABEL: break;
+        case K_SWITCH: pc = lab[i.xs[rd(i.a, 8) % uint64_t(i.nargs)]]; break;
+        case K_YLOAD: { if (i.imm < 0 || i.imm + 32 > kBufBytes) { fault = true; break; } memcpy(&Y[size_t(i.d)], buf + i.imm, 32); break; }
+        case K_YSTORE: { if (i.imm < 0 || i.imm + 32 > kBufBytes) { fault = true; break; } memcpy(buf + i.imm, &Y[size_t(i.a)], 32); break; }
+        case K_YMOV: Y[size_t(i.d)] = Y[size_t(i.a)]; break;
+        case K_YBIN: { V256 a = Y[size_t(i.a)], b = Y[size_t(i.b)], x; uint32_t al[8], bl[8], xl[8]; memcpy(al, &a, 32); memcpy(bl, &b, 32);
+          switch (i.op) { case 0: for (int q = 0; q < 8; q++) xl[q] = al[q] + bl[q]; memcpy(&x, xl, 32); break;
+                          case 1: for (int q = 0; q < 4; q++) x.q[q] = a.q[q] ^ b.q[q]; break;
+                          case 2: for (int q = 0; q < 8; q++) xl[q] = al[q] - bl[q]; memcpy(&x, xl, 32); break;
+                          default: for (int q = 0; q < 4; q++) x.q[q] = a.q[q] & b.q[q]; break; }
+          Y[size_t(i.d)] = x; break; }
+        case K_KLOAD: R[size_t(i.d)] = ld(i.imm, 8); break;
+        case K_KSTORE: stm(i.imm, 8, R[size_t(i.a)]); break;
+        case K_KMOV: R[size_t(i.d)] = R[size_t(i.a)]; break;
+        case K_KBIN: R[size_t(i.d)] = i.op == 0 ? (R[size_t(i.a)] & R[size_t(i.b)]) : i.op == 1 ? (R[size_t(i.a)] | R[size_t(i.b)]) : (R[size_t(i.a)] ^ R[size_t(i.b)]); break;
+        case K_KFROMGP: R[size_t(i.d)] = rd(i.a, 8); break;
+        case K_KTOGP: wr(i.d, 8, R[size_t(i.a)]); break;
         case K_VLOAD: { if (i.imm < 0 || i.imm + 16 > kBufBytes) { fault = true; break; } memcpy(&X[size_t(i.d)], buf + i.imm, 16); break; }
         case K_VSTORE: { if (i.imm < 0 || i.imm + 16 > kBufBytes) { fault = true; break; } memcpy(buf + i.imm, &X[size_t(i.a)], 16); break; }
         case K_VMOV: X[size_t(i.d)] = X[size_t(i.a)]; break;
@@ -353,14 +416,17 @@ static const InstId kCmov[16] = {x86::Inst::kIdCmovo, x86::Inst::kIdCmovno, x86:
 static const InstId kSet[16] = {x86::Inst::kIdSeto, x86::Inst::kIdSetno, x86::Inst::kIdSetb, x86::Inst::kIdSetae, x86::Inst::kIdSetz, x86::Inst::kIdSetnz, x86::Inst::kIdSetbe, x86::Inst::kIdSeta,
   x86::Inst::kIdSets, x86::Inst::kIdSetns, x86::Inst::kIdSetp, x86::Inst::kIdSetnp, x86::Inst::kIdSetl, x86::Inst::kIdSetge, x86::Inst::kIdSetle, x86::Inst::kIdSetg};
 
-struct Emitted { FuncNode* func = nullptr; std::vector<x86::Gp> regs; std::vector<x86::Vec> xregs; Error err = Error::kOk; };
+struct JTab { Label tab; std::vector<Label> targets; };
+struct Emitted { FuncNode* func = nullptr; std::vector<x86::Gp> regs; std::vector<x86::Vec> xregs; std::vector<x86::KReg> kregs; Error err = Error::kOk; };
 
 static Emitted emit_prog(x86::Compiler& cc, const Prog& p) {
   Emitted e;
   { FuncSignature sig(CallConvId::kCDecl); sig.set_ret_t<uint64_t>(); sig.add_arg_t<uint64_t*>(); for (size_t q = 0; q < p.argv.size(); q++) sig.add_arg_t<uint64_t>(); e.func = cc.add_func(sig); }
   for (size_t v = 0; v < p.vsize.size(); v++) {
     int s = p.vsize[v];
-    if (s == 16) { e.xregs.push_back(cc.new_xmm()); e.regs.push_back(x86::Gp()); continue; }
+    e.kregs.push_back(s == -8 ? cc.new_kq() : x86::KReg());
+    if (s == 16 || s == 32) { e.xregs.push_back(s == 16 ? cc.new_xmm() : cc.new_ymm()); e.regs.push_back(x86::Gp()); if (s == 32) e.func->frame().set_avx_enabled(); continue; }
+    if (s == -8) { e.xregs.push_back(x86::Vec()); e.regs.push_back(x86::Gp()); e.func->frame().set_avx_enabled(); continue; }
     e.xregs.push_back(x86::Vec());
     e.regs.push_back(s == 1 ? cc.new_gp8() : s == 2 ? cc.new_gp16() : s == 4 ? cc.new_gp32() : cc.new_gp64());
   }
@@ -373,6 +439,7 @@ static Emitted emit_prog(x86::Compiler& cc, const Prog& p) {
   static const InstId kVbin[9] = {x86::Inst::kIdPaddd, x86::Inst::kIdPsubd, x86::Inst::kIdPxor, x86::Inst::kIdPand, x86::Inst::kIdPor, x86::Inst::kIdPaddq, x86::Inst::kIdPmuludq, x86::Inst::kIdPaddb, x86::Inst::kIdPcmpeqd};
   Error err = Error::kOk;
   auto E = [&](Error x) { if (x != Error::kOk && err == Error::kOk) err = x; };
+  std::vector<JTab> tables;
   for (const Ins& i : p.ins) {
     int w = i.w;
     switch (i.k) {
@@ -400,6 +467,20 @@ static Emitted emit_prog(x86::Compiler& cc, const Prog& p) {
       case K_JCC: E(cc.emit(kJcc[i.cc], labels[size_t(i.lbl)])); break;
       case K_JMP: E(cc.emit(x86::Inst::kIdJmp, labels[size_t(i.lbl)])); break;
       case K_LABEL: E(cc.bind(labels[size_t(i.lbl)])); break;
+      case K_SWITCH: { JTab jt; jt.tab = cc.new_label(); JumpAnnotation* ann = cc.new_jump_annotation();
+        for (int q = 0; q < i.nargs; q++) { jt.targets.push_back(labels[size_t(i.xs[q])]); if (ann) ann->add_label(labels[size_t(i.xs[q])]); }
+        E(cc.lea(R(i.d, 8), x86::ptr(jt.tab))); E(cc.movsxd(R(i.b, 8), x86::dword_ptr(R(i.d, 8), R(i.a, 8), 2))); E(cc.add(R(i.b, 8), R(i.d, 8)));
+        E(cc.jmp(R(i.b, 8), ann)); tables.push_back(jt); break; }
+      case K_YLOAD: E(cc.emit(x86::Inst::kIdVmovdqu, X(i.d), x86::ptr(ptr, int32_t(i.imm), 32))); break;
+      case K_YSTORE: E(cc.emit(x86::Inst::kIdVmovdqu, x86::ptr(ptr, int32_t(i.imm), 32), X(i.a))); break;
+      case K_YMOV: E(cc.emit(x86::Inst::kIdVmovdqa, X(i.d), X(i.a))); break;
+      case K_YBIN: { static const InstId yb[4] = {x86::Inst::kIdVpaddd, x86::Inst::kIdVpxor, x86::Inst::kIdVpsubd, x86::Inst::kIdVpand}; E(cc.emit(yb[i.op], X(i.d), X(i.a), X(i.b))); break; }
+      case K_KLOAD: E(cc.emit(x86::Inst::kIdKmovq, e.kregs[size_t(i.d)], x86::ptr(ptr, int32_t(i.imm), 8))); break;
+      case K_KSTORE: E(cc.emit(x86::Inst::kIdKmovq, x86::ptr(ptr, int32_t(i.imm), 8), e.kregs[size_t(i.a)])); break;
+      case K_KMOV: E(cc.emit(x86::Inst::kIdKmovq, e.kregs[size_t(i.d)], e.kregs[size_t(i.a)])); break;
+      case K_KBIN: { static const InstId kb[3] = {x86::Inst::kIdKandq, x86::Inst::kIdKorq, x86::Inst::kIdKxorq}; E(cc.emit(kb[i.op], e.kregs[size_t(i.d)], e.kregs[size_t(i.a)], e.kregs[size_t(i.b)])); break; }
+      case K_KFROMGP: E(cc.emit(x86::Inst::kIdKmovq, e.kregs[size_t(i.d)], R(i.a, 8))); break;
+      case K_KTOGP: E(cc.emit(x86::Inst::kIdKmovq, R(i.d, 8), e.kregs[size_t(i.a)])); break;
       case K_VLOAD: E(cc.emit(x86::Inst::kIdMovdqu, X(i.d), x86::ptr(ptr, int32_t(i.imm), 16))); break;
       case K_VSTORE: E(cc.emit(x86::Inst::kIdMovdqu, x86::ptr(ptr, int32_t(i.imm), 16), X(i.a))); break;
       case K_VMOV: E(cc.emit(x86::Inst::kIdMovdqa, X(i.d), X(i.a))); break;
@@ -417,6 +498,7 @@ static Emitted emit_prog(x86::Compiler& cc, const Prog& p) {
     }
   }
   E(cc.end_func());
+  for (auto& jt : tables) { E(cc.bind(jt.tab)); for (auto& l : jt.targets) E(cc.embed_label_delta(l, jt.tab, 4)); }   // the tables, behind the function
   e.err = err;
   return e;
 }
@@ -426,8 +508,8 @@ static const uint32_t kFlagBase = 1000000;     // pseudo virtual registers for t
 static const uint32_t kRetV = 2000000;         // pseudo virtual register holding the function result
 static const uint32_t kFlagGroup = 15;
 
-struct Arg { std::string name; int w; };
-struct Desc { bool ok = true; std::string why; std::string key; std::vector<Arg> uses, defs; };
+struct Arg { std::string name; int w; std::string raw; };   // raw non-empty: raw RW facts of a register operand (classified in Coq)
+struct Desc { bool ok = true; std::string why; std::string key; std::vector<Arg> uses, defs; std::string jin = "other 0 - 0"; };
 
 static int msb_width(uint64_t mask) { int w = 0; while (mask) { w++; mask >>= 1; } return w; }
 static uint64_t low_mask(uint32_t n) { return n >= 64 ? ~0ull : ((1ull << n) - 1); }
@@ -467,7 +549,7 @@ struct Dumper {
   // Use/def description of one instruction from InstAPI::query_rw_info.
   // vsizes: per operand the size of the virtual register that the SOURCE instruction names there (0 = not a register);
   //         filled when describing the source, consulted when describing the target (partial-write rule).
-  Desc describe(InstNode* inst, bool target, std::vector<uint32_t>& vsizes, int& idioms) {
+  Desc describe(InstNode* inst, bool target, std::vector<uint32_t>& vsizes, std::string& idioms) {
     Desc d;
     Span<Operand> ops = inst->operands();
     InstRWInfo rw;
@@ -483,21 +565,23 @@ struct Dumper {
     // same-register / immediate idioms (value semantics written down by hand; the default is always sound)
     // idiom_wo: the result does not depend on the register operands (xor/sub r,r = 0; or r,-1 = -1)
     // idiom_ro: the written bytes keep their value (and/or r,r; add/or/xor/sub/shift/rotate r,0) - only the flags change
-    bool idiom_wo, idiom_ro;
-    if (!target && a64) { idiom_wo = idiom_ro = false; idioms = 0; }
-    else if (!target) {
-      bool same2 = ops.size() == 2 && ops[0].is_reg() && ops[1].is_reg() && ops[0] == ops[1];
-      bool imm2 = ops.size() == 2 && ops[0].is_reg() && ops[1].is_imm();
-      int64_t immv = imm2 ? ops[1].as<Imm>().value() : 1;
-      uint32_t sz0 = ops.size() >= 1 && ops[0].is_reg() ? ops[0].as<Reg>().size() : 0;
-      bool vzero = id == x86::Inst::kIdPxor || id == x86::Inst::kIdPsubd || id == x86::Inst::kIdPcmpeqd;     // x^x = x-x = 0, x==x = all ones
-      idiom_wo = (same2 && (id == x86::Inst::kIdXor || id == x86::Inst::kIdSub || vzero)) ||
-                 (imm2 && id == x86::Inst::kIdOr && (immv == -1 || (sz0 < 8 && uint64_t(immv) == low_mask(sz0 * 8))));
-      idiom_ro = (same2 && (id == x86::Inst::kIdAnd || id == x86::Inst::kIdOr || id == x86::Inst::kIdPand || id == x86::Inst::kIdPor)) ||
-                 (imm2 && immv == 0 && (id == x86::Inst::kIdAdd || id == x86::Inst::kIdOr || id == x86::Inst::kIdXor || id == x86::Inst::kIdSub ||
-                                        id == x86::Inst::kIdShl || id == x86::Inst::kIdShr || id == x86::Inst::kIdSar || id == x86::Inst::kIdRol || id == x86::Inst::kIdRor));
-      idioms = (idiom_wo ? 1 : 0) | (idiom_ro ? 2 : 0);
-    } else { idiom_wo = (idioms & 1) != 0; idiom_ro = (idioms & 2) != 0; }   // decided on the source instruction (the key ties both)
+    // inputs of the idiom table RwRuleModel.idiom_of (decided on the SOURCE instruction; the key ties both sides)
+    if (!target) {
+      idioms = "other 0 - 0";
+      if (!a64) {
+        const char* tag = id == x86::Inst::kIdXor ? "xor" : id == x86::Inst::kIdSub ? "sub" : id == x86::Inst::kIdOr ? "or" : id == x86::Inst::kIdAnd ? "and" : id == x86::Inst::kIdAdd ? "add" :
+                          id == x86::Inst::kIdShl ? "shl" : id == x86::Inst::kIdShr ? "shr" : id == x86::Inst::kIdSar ? "sar" : id == x86::Inst::kIdRol ? "rol" : id == x86::Inst::kIdRor ? "ror" :
+                          (id == x86::Inst::kIdPxor || id == x86::Inst::kIdVpxor || id == x86::Inst::kIdKxorq) ? "pxor" : (id == x86::Inst::kIdPsubd || id == x86::Inst::kIdVpsubd) ? "psubd" : (id == x86::Inst::kIdPcmpeqd || id == x86::Inst::kIdVpcmpeqd) ? "pcmpeqd" :
+                          (id == x86::Inst::kIdPand || id == x86::Inst::kIdVpand || id == x86::Inst::kIdKandq) ? "pand" : (id == x86::Inst::kIdPor || id == x86::Inst::kIdVpor || id == x86::Inst::kIdKorq) ? "por" : "other";
+        bool same2 = (ops.size() == 2 && ops[0].is_reg() && ops[1].is_reg() && ops[0] == ops[1]) ||
+                     (ops.size() == 3 && ops[0].is_reg() && ops[0] == ops[1] && ops[0] == ops[2]);     // VEX three-operand form, all the same register
+        bool imm2 = ops.size() == 2 && ops[0].is_reg() && ops[1].is_imm();
+        uint32_t sz0 = ops.size() >= 1 && ops[0].is_reg() ? ops[0].as<Reg>().size() : 0;
+        char jb[96]; if (imm2) snprintf(jb, sizeof jb, "%s 0 %lld %u", tag, (long long)ops[1].as<Imm>().value(), sz0); else snprintf(jb, sizeof jb, "%s %d - %u", tag, int(same2), sz0);
+        if (same2 || imm2) idioms = jb;
+      }
+    }
+    d.jin = idioms;
     for (size_t i = 0; i < ops.size(); i++) {
       const Operand& op = ops[i]; const OpRWInfo& oi = rw.operand(i);
       bool src_was_reg = target && i < vsizes.size() && vsizes[i] != 0;
@@ -522,28 +606,10 @@ struct Dumper {
         if (a64) snprintf(kb, sizeof kb, "|R%x", op.signature().bits() & ~uint32_t(0)); else snprintf(kb, sizeof kb, "|R%u", op.is_mem() ? src_osize : osize);
         d.key += kb;
         uint32_t vs = vsizes[i] & 0xFFFFu;
-        if (oi.is_read() && !idiom_wo) {
-          int rwid = msb_width(oi.read_byte_mask());
-          if (a64 && oi.read_byte_mask() == ~uint64_t(0)) rwid = int(osize);      // AArch64 RW info: "the whole operand"
-          // a read-only register-or-memory operand: the memory form reads rm_size bytes, so does the register form
-          if (!oi.is_write() && oi.is_rm() && oi.rm_size() && int(oi.rm_size()) < rwid) rwid = int(oi.rm_size());
-          if (op.is_mem()) rwid = std::min<int>(rwid, int(osize));
-          d.uses.push_back({name, rwid});
-        }
-        // a value-preserving write is no definition, unless it also zero-extends further bytes of the virtual register
-        bool keeps = idiom_ro && i == 0 && !(oi.extend_byte_mask() & ~oi.write_byte_mask() & low_mask(vs));
-        if (oi.is_write() && !keeps) {
-          uint64_t covered = oi.write_byte_mask() | oi.extend_byte_mask();
-          if (low_mask(vs) & ~covered) {                    // partial write: the rest of the virtual register survives
-            bool have = false; for (auto& u : d.uses) if (u.name == name && u.w >= int(vs)) have = true;
-            if (!have) d.uses.push_back({name, int(vs)});
-            d.defs.push_back({name, int(vs)});
-          } else {
-            // bytes beyond the virtual register's own size are never claimed (they are not preserved by spills)
-            int cw = contig_width(covered); if (vs) cw = std::min<int>(cw, int(vs)); if (op.is_mem()) cw = std::min<int>(cw, int(osize));
-            d.defs.push_back({name, cw});
-          }
-        }
+        // the raw facts; uses/defs are derived by the extracted RwRuleModel.classify
+        snprintf(kb, sizeof kb, "%d %d %llu %llu %llu %u %d %u %d %u %d", int(oi.is_read()), int(oi.is_write()), (unsigned long long)oi.read_byte_mask(),
+                 (unsigned long long)oi.write_byte_mask(), (unsigned long long)oi.extend_byte_mask(), oi.rm_size(), int(oi.is_rm()), osize, int(op.is_mem()), vs, int(i == 0));
+        d.uses.push_back({name, -1, kb});
       } else if (op.is_mem() && a64) {
         const a64::Mem& m = op.as<a64::Mem>();
         if (m.is_reg_home()) { d.ok = false; d.why = "stack-home memory operand not modelled"; return d; }
@@ -587,7 +653,13 @@ struct Dumper {
     return d;
   }
 
-  static void print_args(FILE* f, const std::vector<Arg>& v) { fprintf(f, " %zu", v.size()); for (auto& a : v) fprintf(f, " %s %d", a.name.c_str(), a.w); }
+  // " J <idiom inputs> <a64> <n> items": R name <raw>, U name w, D name w
+  std::string items(const Desc& d) const {
+    std::string s = " J " + d.jin + (a64 ? " 1" : " 0"); char b[64]; snprintf(b, sizeof b, " %zu", d.uses.size() + d.defs.size()); s += b;
+    for (auto& x : d.uses) { if (!x.raw.empty()) s += " R " + x.name + " " + x.raw; else { snprintf(b, sizeof b, " U %s %d", x.name.c_str(), x.w); s += b; } }
+    for (auto& x : d.defs) { snprintf(b, sizeof b, " D %s %d", x.name.c_str(), x.w); s += b; }
+    return s;
+  }
 };
 
 // a pure register copy d := s of w bytes (in the source: both operands virtual registers) that the allocator may drop
@@ -642,6 +714,15 @@ static bool source_copy(Dumper& D, InstNode* inst, uint32_t& dv, uint32_t& sv, i
     if (ra.reg_type() != RegType::kVec128 || rb.reg_type() != RegType::kVec128 || !D.is_virt(ra.id()) || !D.is_virt(rb.id()) || D.vsize_of(ra.id()) > 16) return false;
     dv = D.vindex(ra.id()); sv = D.vindex(rb.id()); w = 16; return true;
   }
+  if (cid == x86::Inst::kIdVmovdqa || cid == x86::Inst::kIdVmovdqu || cid == x86::Inst::kIdVmovaps || cid == x86::Inst::kIdVmovups) {
+    // VEX full-register copy (zeroes the bits above the operand)
+    if ((ra.reg_type() != RegType::kVec128 && ra.reg_type() != RegType::kVec256) || ra.reg_type() != rb.reg_type() || !D.is_virt(ra.id()) || !D.is_virt(rb.id()) || D.vsize_of(ra.id()) > ra.size()) return false;
+    dv = D.vindex(ra.id()); sv = D.vindex(rb.id()); w = int(ra.size()); return true;
+  }
+  if (cid == x86::Inst::kIdKmovq) {
+    if (ra.reg_group() != RegGroup::kMask || rb.reg_group() != RegGroup::kMask || !D.is_virt(ra.id()) || !D.is_virt(rb.id())) return false;
+    dv = D.vindex(ra.id()); sv = D.vindex(rb.id()); w = 8; return true;
+  }
   if (cid != x86::Inst::kIdMov) return false;
   if (ra.reg_group() != RegGroup::kGp || rb.reg_group() != RegGroup::kGp || ra.reg_type() != rb.reg_type() || ra.reg_type() == RegType::kGp8Hi) return false;
   if (!D.is_virt(ra.id()) || !D.is_virt(rb.id())) return false;
@@ -663,7 +744,7 @@ static bool target_move(Dumper& D, InstNode* inst, std::string& out) {
   if (inst->has_extra_reg() || inst->op_count() != 2) return false;
   const Operand& o0 = inst->op(0); const Operand& o1 = inst->op(1);
   auto locof = [&](const Operand& o, std::string& name, uint32_t& size) -> bool {
-    if (o.is_reg()) { const Reg& r = o.as<Reg>(); if (D.is_virt(r.id()) || r.reg_type() == RegType::kGp8Hi) return false; if (r.reg_group() != RegGroup::kGp && r.reg_type() != RegType::kVec128) return false; name = D.regname(r.reg_group(), r.id()); size = r.size(); return true; }
+    if (o.is_reg()) { const Reg& r = o.as<Reg>(); if (D.is_virt(r.id()) || r.reg_type() == RegType::kGp8Hi) return false; if (r.reg_group() != RegGroup::kGp && r.reg_type() != RegType::kVec128 && r.reg_type() != RegType::kVec256 && r.reg_group() != RegGroup::kMask) return false; name = D.regname(r.reg_group(), r.id()); size = r.size(); return true; }
     if (o.is_mem()) { const x86::Mem& m = o.as<x86::Mem>(); if (!Dumper::is_slot(m)) return false; name = Dumper::slotname(m.offset()); size = m.size(); return true; }
     return false; };
   std::string d, s; uint32_t ds = 0, ss = 0;
@@ -672,9 +753,23 @@ static bool target_move(Dumper& D, InstNode* inst, std::string& out) {
   bool gp0 = !o0.is_reg() || o0.as<Reg>().reg_group() == RegGroup::kGp, gp1 = !o1.is_reg() || o1.as<Reg>().reg_group() == RegGroup::kGp;
   if (id == x86::Inst::kIdMovdqa || id == x86::Inst::kIdMovdqu || id == x86::Inst::kIdMovaps || id == x86::Inst::kIdMovups || id == x86::Inst::kIdMovapd || id == x86::Inst::kIdMovupd) {
     // legacy SSE full-register move / load / store: 16 bytes, bits above 128 of the destination register survive
-    if ((o0.is_reg() && gp0) || (o1.is_reg() && gp1)) return false;
+    if ((o0.is_reg() && (gp0 || o0.as<Reg>().reg_type() != RegType::kVec128)) || (o1.is_reg() && (gp1 || o1.as<Reg>().reg_type() != RegType::kVec128))) return false;
     if ((o0.is_mem() && ds && ds != 16) || (o1.is_mem() && ss && ss != 16)) return false;
     snprintf(b, sizeof b, "mov %s %s 16 %d 16", d.c_str(), s.c_str(), int(o0.is_reg())); out = b; return true;
+  }
+  if (id == x86::Inst::kIdVmovdqa || id == x86::Inst::kIdVmovdqu || id == x86::Inst::kIdVmovaps || id == x86::Inst::kIdVmovups || id == x86::Inst::kIdVmovapd || id == x86::Inst::kIdVmovupd) {
+    // VEX full-register move / load / store of 16 or 32 bytes: the destination register is zeroed above the operand
+    auto isvec = [](const Operand& o) { return o.is_reg() && o.as<Reg>().reg_group() == RegGroup::kVec; };
+    if ((o0.is_reg() && !isvec(o0)) || (o1.is_reg() && !isvec(o1))) return false;
+    uint32_t w = o0.is_reg() ? ds : ss; if (w != 16 && w != 32) return false;
+    if ((o0.is_mem() && ds && ds != w) || (o1.is_mem() && ss && ss != w) || (o0.is_reg() && o1.is_reg() && ds != ss)) return false;
+    snprintf(b, sizeof b, "mov %s %s %u 0 %u", d.c_str(), s.c_str(), w, o0.is_reg() ? 64u : w); out = b; return true;
+  }
+  if (id == x86::Inst::kIdKmovq) {
+    auto isk = [](const Operand& o) { return o.is_reg() && o.as<Reg>().reg_group() == RegGroup::kMask; };
+    if ((o0.is_reg() && !isk(o0)) || (o1.is_reg() && !isk(o1))) return false;
+    if ((o0.is_mem() && ds && ds != 8) || (o1.is_mem() && ss && ss != 8)) return false;
+    snprintf(b, sizeof b, "mov %s %s 8 0 8", d.c_str(), s.c_str()); out = b; return true;
   }
   if (!gp0 || !gp1) return false;
   if (id == x86::Inst::kIdMov) {
@@ -691,13 +786,13 @@ static bool target_move(Dumper& D, InstNode* inst, std::string& out) {
   return false;
 }
 
-struct PreNode { BaseNode* node; NodeType type; int sidx; InstId inst_id; bool is_copy; std::vector<uint32_t> vsizes; std::string key; int idioms = 0; std::vector<int> argw; int retw = 0; };
+struct PreNode { BaseNode* node; NodeType type; int sidx; InstId inst_id; bool is_copy; std::vector<uint32_t> vsizes; std::string key; std::string idioms; std::vector<int> argw; int retw = 0; };
 
 struct DumpResult { bool ok = true; std::string why; std::vector<std::string> S, T; };
 
 static void dump_source(Dumper& D, std::vector<PreNode>& pre, std::map<BaseNode*, size_t>& idx, DumpResult& out) {
   FuncNode* func = D.func; char b[256];
-  for (BaseNode* n = D.cc.first_node(); n; n = n->next()) {
+  for (BaseNode* n = D.cc.first_node(), *stop = D.func->end_node()->next(); n && n != stop; n = n->next()) {
     PreNode pn; pn.node = n; pn.type = n->type(); pn.sidx = int(out.S.size()); pn.inst_id = 0; pn.is_copy = false;
     switch (n->type()) {
       case NodeType::kFunc: {
@@ -725,14 +820,20 @@ static void dump_source(Dumper& D, std::vector<PreNode>& pre, std::map<BaseNode*
         std::vector<Arg> defs;
         if (fd.has_ret() && inv->ret(0).is_reg()) { const Reg& r = inv->ret(0).as<Reg>(); if (r.reg_group() != RegGroup::kGp) { out.ok = false; out.why = "non-GP call result not modelled"; return; }
           pn.retw = int(std::min<uint32_t>(r.size(), D.vsize_of(r.id()))); defs.push_back({D.regname(r.reg_group(), r.id()), pn.retw}); }
-        std::string s = "op call/" + d.key;
-        snprintf(b, sizeof b, " %zu", d.uses.size()); s += b; for (auto& a : d.uses) { snprintf(b, sizeof b, " %s %d", a.name.c_str(), a.w); s += b; }
-        snprintf(b, sizeof b, " %zu", defs.size()); s += b; for (auto& a : defs) { snprintf(b, sizeof b, " %s %d", a.name.c_str(), a.w); s += b; }
-        out.S.push_back(s); break; }
+        for (auto& a : defs) d.defs.push_back(a);
+        out.S.push_back("op call/" + d.key + D.items(d)); break; }
       case NodeType::kInst: case NodeType::kJump: {
         InstNode* inst = n->as<InstNode>(); pn.inst_id = inst->inst_id();
         InstControlFlow cf = D.cf_of(inst->inst_id());
         if (cf == InstControlFlow::kJump) {
+          if (inst->op_count() == 1 && !inst->op(0).is_label() && n->type() == NodeType::kJump && n->as<JumpNode>()->annotation()) {
+            // annotated indirect jump: the possible targets are the labels of the annotation
+            Desc d = D.describe(inst, false, pn.vsizes, pn.idioms);
+            if (!d.ok) { out.ok = false; out.why = "source: " + d.why; return; }
+            pn.key = d.key; Span<uint32_t> ids = n->as<JumpNode>()->annotation()->label_ids();
+            std::string s = "jmptab " + d.key; snprintf(b, sizeof b, " %zu", ids.size()); s += b; for (uint32_t id : ids) { snprintf(b, sizeof b, " %u", id); s += b; }
+            out.S.push_back(s + D.items(d)); break;
+          }
           if (inst->op_count() != 1 || !inst->op(0).is_label()) { out.ok = false; out.why = "indirect jump not modelled"; return; }
           snprintf(b, sizeof b, "jmp %u", inst->op(0).as<Label>().id()); out.S.push_back(b); break;
         }
@@ -748,15 +849,10 @@ static void dump_source(Dumper& D, std::vector<PreNode>& pre, std::map<BaseNode*
           // the label is not part of the opcode (the allocator may redirect the branch through a trampoline)
           std::string key = d.key.substr(0, d.key.rfind("|L"));
           std::string s = "cond " + key; snprintf(b, sizeof b, " %u", inst->op(inst->op_count() - 1).as<Label>().id()); s += b;
-          snprintf(b, sizeof b, " %zu", d.uses.size()); s += b; for (auto& a : d.uses) { snprintf(b, sizeof b, " %s %d", a.name.c_str(), a.w); s += b; }
-          if (!d.defs.empty()) { out.ok = false; out.why = "branch with defs"; return; }
-          out.S.push_back(s); break;
+          out.S.push_back(s + D.items(d)); break;
         }
         if (cf != InstControlFlow::kRegular) { out.ok = false; out.why = "call/return instruction not modelled"; return; }
-        std::string s = "op " + d.key;
-        snprintf(b, sizeof b, " %zu", d.uses.size()); s += b; for (auto& a : d.uses) { snprintf(b, sizeof b, " %s %d", a.name.c_str(), a.w); s += b; }
-        snprintf(b, sizeof b, " %zu", d.defs.size()); s += b; for (auto& a : d.defs) { snprintf(b, sizeof b, " %s %d", a.name.c_str(), a.w); s += b; }
-        out.S.push_back(s); break; }
+        out.S.push_back("op " + d.key + D.items(d)); break; }
       case NodeType::kSection: case NodeType::kComment: case NodeType::kAlign: break;
       default: out.ok = false; out.why = "node type not modelled"; return;
     }
@@ -781,11 +877,11 @@ static void dump_target(Dumper& D, std::vector<PreNode>& pre, std::map<BaseNode*
   x86::Builder ebx; a64::Builder eba; BaseBuilder& eb = D.a64 ? static_cast<BaseBuilder&>(eba) : static_cast<BaseBuilder&>(ebx);
   scratch2.attach(&eb); eb.emit_epilog(func->frame());
   std::vector<InstNode*> epilog; for (BaseNode* n = eb.first_node(); n; n = n->next()) if (n->is_inst()) epilog.push_back(n->as<InstNode>());
-  if (func->frame().has_preserved_fp() || func->frame().has_dynamic_alignment()) { out.ok = false; out.why = "frame pointer / dynamic alignment not modelled"; return; }
+  if (func->frame().has_preserved_fp()) { out.ok = false; out.why = "frame pointer not modelled"; return; }
 
   size_t prolog_left = 0, epilog_pos = 0; bool in_epilog = false;
   auto T = [&](int hint, const std::string& s) { if (hint >= 0) snprintf(b, sizeof b, "%d ", hint); else snprintf(b, sizeof b, "- "); out.T.push_back(std::string(b) + s); };
-  for (BaseNode* n = D.cc.first_node(); n; n = n->next()) {
+  for (BaseNode* n = D.cc.first_node(), *stop = D.func->end_node()->next(); n && n != stop; n = n->next()) {
     auto it = idx.find(n);
     PreNode* pn = it == idx.end() ? nullptr : &pre[it->second];
     switch (n->type()) {
@@ -796,6 +892,7 @@ static void dump_target(Dumper& D, std::vector<PreNode>& pre, std::map<BaseNode*
           const FuncValue& fv = func->detail().arg(i);
           if (fv.is_indirect()) { out.ok = false; out.why = "indirect argument not modelled"; return; }
           if (fv.is_reg()) defs.push_back({D.regname(RegUtils::group_of(fv.reg_type()), fv.reg_id()), int(D.vsize_of(ro.id()))});
+          else if (fv.is_stack() && func->frame().has_dynamic_alignment()) { out.ok = false; out.why = "stack argument in a frame with re-aligned stack not modelled"; return; }
           else if (fv.is_stack()) defs.push_back({Dumper::slotname(int64_t(func->frame().sa_offset_from_sp()) + fv.stack_offset()), int(D.vsize_of(ro.id()))});   // the caller's argument area, seen from the body's sp
           else { out.ok = false; out.why = "argument location"; return; }
         }
@@ -832,10 +929,8 @@ static void dump_target(Dumper& D, std::vector<PreNode>& pre, std::map<BaseNode*
         if (!D.a64) for (uint32_t id = 0; id < 8; id++) if (!(fd.preserved_regs(RegGroup::kMask) & (1u << id))) defs.push_back({D.regname(RegGroup::kMask, id), 8});
         for (int fb : {0, 1, 2, 3, 8, 9, 10}) if (!D.a64 || fb < 4) defs.push_back({Dumper::flagname(true, fb), 1});
         for (auto& c : clob) defs.push_back(c);
-        std::string s = "op call/" + d.key;
-        snprintf(b, sizeof b, " %zu", d.uses.size()); s += b; for (auto& a : d.uses) { snprintf(b, sizeof b, " %s %d", a.name.c_str(), a.w); s += b; }
-        snprintf(b, sizeof b, " %zu", defs.size()); s += b; for (auto& a : defs) { snprintf(b, sizeof b, " %s %d", a.name.c_str(), a.w); s += b; }
-        T(pn->sidx, s); break; }
+        for (auto& a : defs) d.defs.push_back(a);
+        T(pn->sidx, "op call/" + d.key + D.items(d)); break; }
       case NodeType::kInst: case NodeType::kJump: {
         InstNode* inst = n->as<InstNode>();
         if (!pn && in_epilog) {
@@ -857,6 +952,13 @@ static void dump_target(Dumper& D, std::vector<PreNode>& pre, std::map<BaseNode*
         if (pn && prolog_left) { out.ok = false; out.why = "prolog shorter than expected"; return; }
         InstControlFlow cf = D.cf_of(inst->inst_id());
         if (cf == InstControlFlow::kJump) {
+          if (pn && inst->op_count() == 1 && !inst->op(0).is_label() && n->type() == NodeType::kJump && n->as<JumpNode>()->annotation()) {
+            Desc d = D.describe(inst, true, pn->vsizes, pn->idioms);
+            if (!d.ok) { std::string t = d.why; std::replace(t.begin(), t.end(), ' ', '_'); T(pn->sidx, "bad " + t); break; }
+            Span<uint32_t> ids = n->as<JumpNode>()->annotation()->label_ids();
+            std::string s = "jmptab " + d.key; snprintf(b, sizeof b, " %zu", ids.size()); s += b; for (uint32_t id : ids) { snprintf(b, sizeof b, " %u", id); s += b; }
+            T(pn->sidx, s + D.items(d)); break;
+          }
           if (inst->op_count() != 1 || !inst->op(0).is_label()) { out.ok = false; out.why = "indirect jump in output"; return; }
           snprintf(b, sizeof b, "jmp %u", inst->op(0).as<Label>().id()); T(-1, b); break;
         }
@@ -870,7 +972,7 @@ static void dump_target(Dumper& D, std::vector<PreNode>& pre, std::map<BaseNode*
         bool xform = false;
         if (pn->inst_id != inst->inst_id()) {
           // the allocator turns movd/movq gp, xmm into mov gp, [home of xmm] when the vector register lives in memory
-          bool from = pn->inst_id == x86::Inst::kIdMovd || pn->inst_id == x86::Inst::kIdMovq;
+          bool from = pn->inst_id == x86::Inst::kIdMovd || pn->inst_id == x86::Inst::kIdMovq || pn->inst_id == x86::Inst::kIdKmovq;   // (kmovq gp, k likewise)
           xform = from && inst->inst_id() == x86::Inst::kIdMov && inst->op_count() == 2 && inst->op(0).is_reg() && inst->op(0).as<Reg>().reg_group() == RegGroup::kGp &&
                   inst->op(1).is_mem() && Dumper::is_slot(inst->op(1).as<x86::Mem>()) && inst->op(1).as<x86::Mem>().size() == (pn->inst_id == x86::Inst::kIdMovd ? 4u : 8u) &&
                   inst->op(0).as<Reg>().size() == inst->op(1).as<x86::Mem>().size();
@@ -882,13 +984,9 @@ static void dump_target(Dumper& D, std::vector<PreNode>& pre, std::map<BaseNode*
         if (cf == InstControlFlow::kBranch) {
           std::string key = d.key.substr(0, d.key.rfind("|L"));
           std::string s = "cond " + key; snprintf(b, sizeof b, " %u", inst->op(inst->op_count() - 1).as<Label>().id()); s += b;
-          snprintf(b, sizeof b, " %zu", d.uses.size()); s += b; for (auto& a : d.uses) { snprintf(b, sizeof b, " %s %d", a.name.c_str(), a.w); s += b; }
-          T(pn->sidx, s); break;
+          T(pn->sidx, s + D.items(d)); break;
         }
-        std::string s = "op " + d.key;
-        snprintf(b, sizeof b, " %zu", d.uses.size()); s += b; for (auto& a : d.uses) { snprintf(b, sizeof b, " %s %d", a.name.c_str(), a.w); s += b; }
-        snprintf(b, sizeof b, " %zu", d.defs.size()); s += b; for (auto& a : d.defs) { snprintf(b, sizeof b, " %s %d", a.name.c_str(), a.w); s += b; }
-        T(pn->sidx, s); break; }
+        T(pn->sidx, "op " + d.key + D.items(d)); break; }
       case NodeType::kSection: case NodeType::kComment: case NodeType::kAlign: break;
       default: out.ok = false; out.why = "node type in output not modelled"; return;
     }
@@ -961,6 +1059,25 @@ static bool probe_program(const std::string& name, Prog& p) {
     p.ins.push_back(mk(K_LABEL, 0, -1, -1, -1, 8, 0, 2));
     st(1, 0); p.ins.push_back(mk(K_RET, 0, -1, 1, -1, 8)); return true;
   }
+  if (name == "jump-table-shared-target") {
+    // switch (x & 3) { case 0: <work>; /* falls through */ case 1: case 2: case 3: <use everything> } - several entries of the
+    // annotated jump table name the same block, which is also entered by falling through from the first case
+    const int M = 20; for (int j = 1; j <= M; j++) p.vsize.push_back(8);
+    int jidx = M + 1, joff = M + 2, jtgt = M + 3, acc2 = M + 4; for (int j = 0; j < 4; j++) p.vsize.push_back(8);
+    p.nlabels = 4;
+    for (int j = 1; j <= M; j++) ld(j, 8 * j);
+    p.ins.push_back(mk(K_MOVRI, 0, acc2, -1, -1, 8, 0));
+    for (int t : {jidx, joff, jtgt}) p.ins.push_back(mk(K_MOVRI, 0, t, -1, -1, 8, 0));
+    for (int j = 1; j <= M; j++) p.ins.push_back(mk(K_ALU, A_ADD, acc2, j, -1, 8));
+    p.ins.push_back(mk(K_MOVRR, 0, jidx, 1, -1, 4)); p.ins.push_back(mk(K_ALUI, A_AND, jidx, -1, -1, 4, 3));
+    Ins sw = mk(K_SWITCH, 0, joff, jidx, jtgt, 8); sw.nargs = 4; sw.xs[0] = 0; sw.xs[1] = 1; sw.xs[2] = 2; sw.xs[3] = 3; p.ins.push_back(sw);
+    p.ins.push_back(mk(K_LABEL, 0, -1, -1, -1, 8, 0, 0));
+    for (int j = 1; j <= M; j += 2) { p.ins.push_back(mk(K_SHIFTCL, S_ROL, acc2, j, -1, 8)); p.ins.push_back(mk(K_ALU, A_ADD, j, acc2, -1, 8)); }
+    p.ins.push_back(mk(K_LABEL, 0, -1, -1, -1, 8, 0, 1)); p.ins.push_back(mk(K_LABEL, 0, -1, -1, -1, 8, 0, 2)); p.ins.push_back(mk(K_LABEL, 0, -1, -1, -1, 8, 0, 3));   // three table entries, one block
+    for (int j = 1; j <= M; j++) p.ins.push_back(mk(K_ALU, A_XOR, acc2, j, -1, 8));
+    for (int j = 1; j <= M; j++) st(j, j);
+    st(acc2, 0); p.ins.push_back(mk(K_RET, 0, -1, acc2, -1, 8)); return true;
+  }
   const int N = 24;
   for (int j = 1; j <= N; j++) p.vsize.push_back(8);
   int acc = int(p.vsize.size()); p.vsize.push_back(8);
@@ -986,7 +1103,7 @@ static bool probe_program(const std::string& name, Prog& p) {
 static int run_one(uint64_t seed, uint64_t index, int inputs, bool verbose, const char* probe = nullptr) {
   Prog p;
   if (probe) { if (!probe_program(probe, p)) { printf("P 0\nG unknown-probe\nE\n"); return 0; } } else gen_program(seed, index, p);
-  printf("P %llu nv=%zu ni=%zu nl=%d\n", (unsigned long long)index, p.vsize.size(), p.ins.size(), p.nlabels);
+  printf("P %llu nv=%zu ni=%zu nl=%d jt=%d\n", (unsigned long long)index, p.vsize.size(), p.ins.size(), p.nlabels, p.jt_mode);
   JitRuntime rt; CodeHolder code; code.init(rt.environment(), rt.cpu_features());
   ErrH eh; code.set_error_handler(&eh);
   x86::Compiler cc(&code);
@@ -1016,7 +1133,7 @@ static int run_one(uint64_t seed, uint64_t index, int inputs, bool verbose, cons
   if (pid == 0) {
     close(pfd[0]);
     FILE* out = fdopen(pfd[1], "w");
-    alarm(20);
+    alarm(6);
     int diverged = exec_inputs(p, fn, seed, index, inputs, out);
     (void)diverged; fflush(out); _exit(0);
   }
@@ -1038,7 +1155,7 @@ static int run_one(uint64_t seed, uint64_t index, int inputs, bool verbose, cons
 // in one go (no interpreter needed): every virtual register is defined at function entry, operands never exceed the
 // register's size, no unreachable code.
 struct A64Gen {
-  Rng& r; a64::Compiler& cc; std::vector<a64::Gp> g; std::vector<int> gsz; std::vector<a64::Vec> v; a64::Gp p; Error err = Error::kOk; bool calls = false;
+  Rng& r; a64::Compiler& cc; std::vector<a64::Gp> g; std::vector<int> gsz; std::vector<a64::Vec> v; a64::Gp p; Error err = Error::kOk; bool calls = false, lists = false;
   A64Gen(Rng& r_, a64::Compiler& c) : r(r_), cc(c) {}
   void E(Error e) { if (e != Error::kOk && err == Error::kOk) err = e; }
   int any() { return int(r.below(uint32_t(g.size()))); }
@@ -1049,7 +1166,7 @@ struct A64Gen {
                           case 4: E(cc.b_hi(l)); break; case 5: E(cc.b_ls(l)); break; case 6: E(cc.b_mi(l)); break; default: E(cc.b_cs(l)); break; } }
   void op() {
     static const InstId alu3[10] = {a64::Inst::kIdAdd, a64::Inst::kIdSub, a64::Inst::kIdAnd, a64::Inst::kIdOrr, a64::Inst::kIdEor, a64::Inst::kIdMul, a64::Inst::kIdUdiv, a64::Inst::kIdLsl, a64::Inst::kIdLsr, a64::Inst::kIdAsr};
-    uint32_t k = r.below(v.empty() ? 14 : 20); if (calls && r.chance(6)) k = 20;
+    uint32_t k = r.below(v.empty() ? 14 : 20); if (calls && r.chance(6)) k = 20; if (lists && v.size() >= 4 && r.chance(5)) k = 22;
     switch (k) {
       case 0: case 1: case 2: case 3: { int d = any(), a = any(), b = any(); int w = (gsz[size_t(d)] == 8 && gsz[size_t(a)] == 8 && gsz[size_t(b)] == 8 && r.chance(60)) ? 8 : 4; E(cc.emit(alu3[r.below(10)], R(d, w), R(a, w), R(b, w))); break; }
       case 4: { int d = any(), a = any(); int w = (gsz[size_t(d)] == 8 && gsz[size_t(a)] == 8 && r.chance(60)) ? 8 : 4; E(cc.emit(r.chance(50) ? a64::Inst::kIdAdd : a64::Inst::kIdSub, R(d, w), R(a, w), Imm(r.below(4096)))); break; }
@@ -1073,6 +1190,15 @@ struct A64Gen {
         FuncSignature sig(CallConvId::kCDecl); sig.set_ret_t<uint64_t>(); for (uint32_t q = 0; q < na; q++) sig.add_arg_t<uint64_t>();
         InvokeNode* inv = nullptr; E(cc.invoke(Out<InvokeNode*>(inv), R(t, 8), sig));
         if (inv) { for (uint32_t q = 0; q < na; q++) { int a = wide(); inv->set_arg(q, R(a, 8)); } inv->set_ret(0, R(d, 8)); } break; }
+      case 22: case 23: case 24: { // register lists: the allocator must place the 2..4 list members in consecutive vector registers
+        if (v.size() < 4) break; uint32_t n = 2 + r.below(3); uint32_t idx[4]; bool dup = false;
+        for (uint32_t q = 0; q < n; q++) { idx[q] = r.below(uint32_t(v.size())); for (uint32_t z = 0; z < q; z++) if (idx[z] == idx[q]) dup = true; }
+        if (dup) break; a64::Gp base = cc.new_gp64(); E(cc.add(base, p, Imm(r.below(16) * 64)));
+        bool st = r.chance(40);
+        if (n == 2) E(st ? cc.st1(v[idx[0]].s4(), v[idx[1]].s4(), a64::ptr(base)) : cc.ld1(v[idx[0]].s4(), v[idx[1]].s4(), a64::ptr(base)));
+        else if (n == 3) E(st ? cc.st1(v[idx[0]].s4(), v[idx[1]].s4(), v[idx[2]].s4(), a64::ptr(base)) : cc.ld1(v[idx[0]].s4(), v[idx[1]].s4(), v[idx[2]].s4(), a64::ptr(base)));
+        else E(st ? cc.st1(v[idx[0]].s4(), v[idx[1]].s4(), v[idx[2]].s4(), v[idx[3]].s4(), a64::ptr(base)) : cc.ld1(v[idx[0]].s4(), v[idx[1]].s4(), v[idx[2]].s4(), v[idx[3]].s4(), a64::ptr(base)));
+        break; }
       case 14: { E(cc.ldr(v[r.below(uint32_t(v.size()))], a64::ptr(p, int32_t(r.below(30) * 16)))); break; }
       case 15: { E(cc.str(v[r.below(uint32_t(v.size()))], a64::ptr(p, int32_t(1024 + r.below(60) * 16)))); break; }
       case 16: { auto& d = v[r.below(uint32_t(v.size()))]; auto& a = v[r.below(uint32_t(v.size()))]; auto& b = v[r.below(uint32_t(v.size()))];
@@ -1111,6 +1237,7 @@ struct A64Gen {
   }
 };
 
+static bool g_a64_lists = true;
 static void run_one_a64(uint64_t seed, uint64_t index, bool verbose) {
   Rng r(seed * 1000003ull + index + 0xA64A64ull);
   int cls = int(index % 5), ngp;
@@ -1120,7 +1247,7 @@ static void run_one_a64(uint64_t seed, uint64_t index, bool verbose) {
   Environment env(Arch::kAArch64); CodeHolder code; code.init(env);
   ErrH eh; code.set_error_handler(&eh);
   a64::Compiler cc(&code);
-  A64Gen gen(r, cc); gen.calls = r.chance(50);
+  A64Gen gen(r, cc); gen.calls = r.chance(50); gen.lists = g_a64_lists;
   FuncNode* func = gen.build(ngp, nvec, 5 + int(r.below(cls >= 3 ? 120 : 60)), r.below(4) == 0 ? 0 : int(r.below(35)));
   if (gen.err != Error::kOk || eh.err != Error::kOk) { printf("G emit-error %u %s\nE\n", unsigned(eh.err != Error::kOk ? eh.err : gen.err), eh.msg.c_str()); return; }
   Dumper D(cc, func);
@@ -1139,8 +1266,11 @@ static void run_one_a64(uint64_t seed, uint64_t index, bool verbose) {
 }
 
 int main(int argc, char** argv) {
-  if (argc >= 4 && !strcmp(argv[1], "probe")) { g_features = 63; run_one(1, 0, atoi(argv[3]), argc > 4 && atoi(argv[4]) != 0, argv[2]); return 0; }
+  if (argc >= 4 && !strcmp(argv[1], "probe")) { g_features = 255; run_one(1, 0, atoi(argv[3]), argc > 4 && atoi(argv[4]) != 0, argv[2]); return 0; }
+  if (argc >= 4 && !strcmp(argv[1], "jt7")) { g_jt_mode = 7; g_features = 127; for (uint64_t i = 0; i < strtoull(argv[2], nullptr, 10); i++) { run_one(424242, i, atoi(argv[3]), false); fflush(stdout); } return 0; }
+  if (getenv("C05_JT_SHARE")) g_jt_mode = atoi(getenv("C05_JT_SHARE"));
   if (argc >= 5 && !strcmp(argv[1], "a64")) { uint64_t sd = strtoull(argv[2], nullptr, 10), fi = strtoull(argv[3], nullptr, 10), cn = strtoull(argv[4], nullptr, 10);
+    if (argc > 6) g_a64_lists = atoi(argv[6]) != 0;     // register lists (ld1/st1 with 2..4 registers) on/off
     for (uint64_t i = fi; i < fi + cn; i++) { run_one_a64(sd, i, argc > 5 && atoi(argv[5]) != 0); fflush(stdout); } return 0; }
   if (argc < 6) { fprintf(stderr, "usage: %s seed first count inputs features [verbose] | probe <name> <inputs> [verbose]\n", argv[0]); return 2; }
   uint64_t seed = strtoull(argv[1], nullptr, 10), first = strtoull(argv[2], nullptr, 10), count = strtoull(argv[3], nullptr, 10);
